@@ -57,6 +57,11 @@ DIRECTED = [
     "def f(a, *rest, k=3, **kw):\n    try:\n        R(1)\n    except Boom as e:\n        pass\n    return a\n",
     "def f(a):\n    for i, (j, k) in []:\n        pass\n    else:\n        z = 1\n    while C(1):\n        y = (w := 2)\n    with CM(2) as u:\n        pass\n    return a\n",
     "def f(a):\n    b: int\n    c: int = a\n    c += GLOB1\n    O.a = c\n    return H(1, c)\n",
+    # the parameters of a nested def are its own, whatever names of the enclosing function they coincide with
+    "def f(a):\n    b = a\n    def inner(b, GLOB1, c=1, *d, e=2):\n        return b\n    c = H(1, GLOB1)\n    for d in T(2, 'list', 1):\n        pass\n    return inner\n",
+    # a local that is read, textually, before the statement that binds it
+    "def f(xs):\n    for x in xs:\n        if x < 0:\n            return last\n        last = x\n    return None\n",
+    "def f(n):\n    while C(1):\n        if C(2):\n            return helper(acc)\n        def helper(q):\n            return q\n        acc = n\n    return n\n",
     # a parameter re-bound by an import / a def / a class / a loop / a with / a handler stays a parameter
     "def f(a, math=None, sep=None):\n    if math is None:\n        import math\n    from os import sep\n    import os.path as a\n    return (a, math, sep)\n",
     "def f(a, b, c, d, e=None):\n    def a():\n        pass\n    class b:\n        pass\n    for c in []:\n        pass\n    with CM(1) as d:\n        pass\n    try:\n        R(2)\n    except Boom as e:\n        pass\n    return a\n",
